@@ -275,6 +275,114 @@ def sequence_history(item):
     return out
 
 
+class InjectedFault(ArithmeticError):
+    """A failure raised at a chosen point of a run (any line of any module's Calculate may fail: a numeric error, an interrupt)."""
+
+
+def crash_history(item):
+    """Worker: in ONE process: input A; input B recorded (which lines of the modules' `Calculate` bodies it executes); then, for a
+    seeded choice of those lines, B again with a failure raised when the line is first reached, followed by A again.  The failed
+    run must leave nothing behind: A's result, the working directory and the argument vector are as before."""
+    tag, (ida, ta), (idb, tb), npoints, rseed = item
+    bind_repo()
+    from geophires_x_client import GeophiresXClient
+    from geophires_x_client.geophires_input_parameters import GeophiresInputParameters
+
+    src = str(REPO / 'src' / 'geophires_x')
+    root = Path(tempfile.mkdtemp(prefix='vc08k_', dir='/dev/shm' if os.path.isdir('/dev/shm') else None))
+    cwd0, argv0 = os.getcwd(), list(sys.argv)
+    home_argv = ['caller-program', '--flag']
+    sys.argv = list(home_argv)
+    logging.disable(logging.CRITICAL)
+    sink = io.StringIO()
+    n = [0]
+
+    def request(text):
+        n[0] += 1
+        f = root / f'in{n[0]}.txt'
+        f.write_text(text)
+        try:
+            with contextlib.redirect_stdout(sink), contextlib.redirect_stderr(sink):
+                r = GeophiresXClient(enable_caching=False).get_geophires_result(GeophiresInputParameters(from_file_path=f))
+            return full_digest(r.output_file_path)
+        except BaseException as ex:  # noqa: BLE001
+            return f'failed:{type(ex).__name__}'
+
+    seen, order = set(), []
+
+    def recorder(frame, event, arg):
+        co = frame.f_code
+        if event != 'call' or co.co_name != 'Calculate' or not co.co_filename.startswith(src):
+            return None
+
+        def local(fr, ev, a):
+            if ev == 'line':
+                k = (fr.f_code.co_filename, fr.f_lineno)
+                if k not in seen:
+                    seen.add(k)
+                    order.append(k)
+            return local
+        return local
+
+    def injector_for(point):
+        hit = [False]
+
+        def tracer(frame, event, arg):
+            co = frame.f_code
+            if hit[0] or event != 'call' or co.co_name != 'Calculate' or co.co_filename != point[0]:
+                return None
+
+            def local(fr, ev, a):
+                if ev == 'line' and not hit[0] and fr.f_lineno == point[1]:
+                    hit[0] = True
+                    raise InjectedFault(f'injected at {os.path.basename(point[0])}:{point[1]}')
+                return local
+            return local
+        return tracer, hit
+
+    out = {'tag': tag, 'events': [], 'crashes': []}
+    try:
+        out['events'].append({'input': ida, 'digest': request(ta), 'how': f'{tag}#first'})
+        sys.settrace(recorder)
+        try:
+            dgb = request(tb)
+        finally:
+            sys.settrace(None)
+        out['events'].append({'input': idb, 'digest': dgb, 'how': f'{tag}#recorded'})
+        rng = random.Random(rseed)
+        byfile = {}
+        for k in order:
+            byfile.setdefault(k[0], []).append(k)
+        points = [rng.choice(v) for v in byfile.values()]       # one point in every module's Calculate ...
+        rest = [k for k in order if k not in points]
+        rng.shuffle(rest)
+        points = (points + rest)[:max(npoints, len(points))]      # ... all of them, filled up to npoints with further lines
+        out['lines_seen'] = len(order)
+        for pt in points:
+            tracer, hit = injector_for(pt)
+            c0 = os.getcwd()
+            sys.settrace(tracer)
+            try:
+                got = request(tb)
+            finally:
+                sys.settrace(None)
+            where = f'{os.path.basename(pt[0])}:{pt[1]}'
+            out['crashes'].append({'at': where, 'reached': hit[0], 'outcome': 'failed' if got.startswith('failed') else 'completed',
+                                   'cwd_same': os.getcwd() == c0, 'argv_same': sys.argv == home_argv, 'input': idb})
+            if os.getcwd() != c0:
+                os.chdir(c0)
+            if sys.argv != home_argv:
+                sys.argv = list(home_argv)
+            out['events'].append({'input': ida, 'digest': request(ta), 'how': f'{tag}#after {idb} failed at {where}'})
+    finally:
+        sys.settrace(None)
+        os.chdir(cwd0)
+        sys.argv = argv0
+        logging.disable(logging.NOTSET)
+        shutil.rmtree(root, ignore_errors=True)
+    return out
+
+
 def cli_run(item):
     """Worker: python -m geophires_x in a sub-process with a given hash seed and start directory."""
     ident, text, hashseed, startdir = item
@@ -376,6 +484,26 @@ def run(tier: str, only_key: dict | None = None) -> int:
             order = models[:4] + [models[0]]
         seqs.append((f'seq{k}', [(i, texts[i]) for i in order]))
     seq_out = sim.call_in_pool('harness.c08:sequence_history', seqs)
+    # ---- failed runs at every crash point: a failure raised at a seeded choice of lines of the modules' Calculate bodies
+    pairs = [(a, b) for a, b in (('example1|v1', 'example2|v1'), ('example2|v1', 'example1|v1'), ('example1|v1', 'example3|v1'),
+                                 ('example3|v1', 'grid-eu2-pt9|v1'), ('example2|v1', 'example12_DH|v1'), ('example1|v1', 'example_overpressure|v1'),
+                                 ('example3|v1', 'S-DAC-GT|v1'), ('example2|v1', 'Fervo_Project_Cape-3|v1')) if a in texts and b in texts]
+    crash_items = []
+    for k in range(len(pairs) if tier == 'quick' else 4 * len(pairs)):
+        a, b = pairs[k % len(pairs)]
+        crash_items.append((f'crash{k}', (a, texts[a]), (b, texts[b]), 6 if tier == 'quick' else 12, seed() * 1000 + k))
+    crash_out = sim.call_in_pool('harness.c08:crash_history', crash_items)
+    crash_events = [e for c in crash_out for e in c['events']]
+    for c in crash_out:
+        for cr in c['crashes']:
+            counts['crash_points_' + cr['outcome']] = counts.get('crash_points_' + cr['outcome'], 0) + 1
+            res.case(f"{c['tag']}@{cr['at']}")
+            if not (cr['cwd_same'] and cr['argv_same']):
+                res.violation({'clause': 'C08_restore', 'family': cr['input'], 'ops': ['crash', cr['at'].split(':')[0]]},
+                              f"C08_restore: a run of {cr['input']} that failed at {cr['at']} left cwd_same={cr['cwd_same']} argv_same={cr['argv_same']}",
+                              {'crash': cr, 'input_text': texts.get(cr['input'])})
+    res.cov['crash_points'] = {'histories': len(crash_out), 'calculate_lines_seen': sum(c.get('lines_seen', 0) for c in crash_out),
+                               'sample': [c['crashes'][:3] for c in crash_out[:2]]}
     cli_items = []
     for ident in idents[: (6 if tier == 'quick' else len(idents))]:
         for hs in ('0', '1', '12345'):
@@ -396,7 +524,7 @@ def run(tier: str, only_key: dict | None = None) -> int:
         for hs in (('0', '1', '2', '3') if tier == 'quick' else ('0', '1', '2', '3', '4', '5', '12345')):
             cli_items.append((ident, q['text'], hs, 'sub'))
     cli_out = sim.call_in_pool('harness.c08:cli_run', cli_items)
-    events = [e for s in seq_out for e in s] + cli_out
+    events = [e for s in seq_out for e in s] + cli_out + crash_events
     htrace = [{'tid': 1, 'clause': 'C08_pure', 'events': events}]
     hv, ds, gs = tlc.validate_traces('TraceHistory', 'TraceHistory.cfg', htrace, shards=1)
     res.states += ds
@@ -414,12 +542,13 @@ def run(tier: str, only_key: dict | None = None) -> int:
     res.cov['clauses_and_outcomes'] = counts
     if traces:
         res.sample({'client_history': {k: traces[0][k] for k in ('family', 'files0', 'cwd0', 'events')}, 'verdict': verdicts[1]})
-    for need in ('C08_restore', 'C08_fresh', 'C08_pure_outcome', 'requests_ok', 'requests_fail', 'C08_pure'):
+    for need in ('C08_restore', 'C08_fresh', 'C08_pure_outcome', 'requests_ok', 'requests_fail', 'C08_pure', 'crash_points_failed'):
         if not counts.get(need):
             raise MachineryFailure(f'C08: {need} never exercised')
     res.cov['rule'] = ('M1: all histories of <= 5 operations; M2/M3: TLC histories of 4 operations sampled by seed (80 % with a rewrite and '
                        '>= 2 requests) over 9 input families; contamination sequences and CLI sub-processes under 3 hash seeds x 2 start '
-                       'directories; distinct = history / run identity')
+                       'directories; failed runs at seeded crash points (a failure raised at a line of a module\'s Calculate; one point per module '
+                       'reached, quick 8 x 6, thorough 32 x 12) each followed by a reference input; distinct = history / run identity')
     res.assumptions += ['results compared as report text without date/time lines',
                         'the reference result of a content version is its run in a history of length one']
     if only_key is not None:
